@@ -11,8 +11,8 @@ static ExecCfg c09_cfg() {
     return c;
 }
 
-static TaskPlan gen_task(Rng &r, bool thorough) {
-    TaskPlan t; t.dtype = gen_dtype(r); bool cplx = (t.dtype == 'c' || t.dtype == 'z');
+static TaskPlan gen_task(Rng &r, bool thorough, char force_dtype = 0) {
+    TaskPlan t; t.dtype = gen_dtype(r); if (force_dtype) t.dtype = force_dtype; bool cplx = (t.dtype == 'c' || t.dtype == 'z');
     gen_tuning(r, t.tuning, r.chance(0.4));
     t.garbage = G_ZERO;
     int nmax = thorough ? (r.chance(0.1) ? 90 : 45) : 26;
@@ -49,7 +49,9 @@ Case gen_C09(uint64_t seed, long run, const GenCfg &g, const char *inflight) {
     Case c; c.property = "C09"; c.seed = seed; c.run = run; c.variant = g.variant;
     bool history_mode = r.chance(0.2);
     int nt = history_mode ? r.range(2, 5) : r.range(2, g.thorough ? 6 : 4);
-    for (int i = 0; i < nt; i++) c.tasks.push_back(gen_task(r, g.thorough));
+    // 35 % of the runs are homogeneous (all tasks use the same precision): more tasks inside the very same routines at the same time
+    char same = r.chance(0.35) ? gen_dtype(r) : 0;
+    for (int i = 0; i < nt; i++) c.tasks.push_back(gen_task(r, g.thorough, same));
     c.sched_seed = r.next();
     double u = r.unit();
     c.sched_mode = u < 0.75 ? SM_SLICES : SM_PCT;
